@@ -29,6 +29,16 @@ CHECKS = {
             'Lean 4 proof (invariant by induction over operations and fuel) + model/implementation correspondence on histories'),
 }
 
+CHECKS['C07'] = ('4/C07',
+    'Lean 4 theorems over a branch-by-branch model of ExcelComparator/evaluate_logic, for ALL rationals, strings and '
+    'date-times: the six operators never raise on scalars and realise a strict total order (trichotomy, converse, derived '
+    'relations, transitivity) that is exactly the described one (numeric by value/serial, text lexicographic by code point, '
+    'FALSE<TRUE, rank number<text<logical), blanks act as 0/""/FALSE; the model is tied to the code by comparing all six '
+    'operators on every ordered pair of a scalar pool, and the oracle checks the laws on all pairs and triples of real results.',
+    'Trusted: Lean kernel; the correspondence harness; Python comparison of int/float/str/bool (modelled by exact rationals and '
+    'code-point lexicographic order); float NaN/inf are outside the statement.',
+    'Lean 4 proof (order isomorphism to a lexicographic key) + model/implementation correspondence on all pool pairs')
+
 NOT_APPLICABLE = {}
 
 
